@@ -9,8 +9,8 @@ import uuid as uuidlib
 import extract
 from lib import hx
 
-EXTRACT = ['ids', 'layouts']
-EXTRA_PROPS = ['C05Hand', 'C05Stream']
+EXTRACT = ['ids', 'layouts', 'gen.c05nbt']
+EXTRA_PROPS = ['C05Hand', 'C05Stream', 'C05Nbt']
 RULE = ("every supported protocol version (quick: rotating third + all layout-boundary versions) x every "
         "registered definition-driven packet class x 2..4 value sets (boundary + seeded random wire-"
         "representable values per field type, incl. nested arrays, positions, records, fixed point, angles); "
